@@ -315,7 +315,7 @@ func checkDecoderTable(c *Ctx, col string, dec *ssa.Function) {
 		c.Undecided("A2", fname, "decoder for "+col, p.pos(dec.Pos()), "no digit oracle for column "+col)
 		return
 	}
-	tb, err := extractTable(dec)
+	tb, err := c.extractTableComposed(dec, 0)
 	if err != nil {
 		// a decoder written as a search in a constant table is the same table
 		if lt, ok := c.lookupLoopTable(dec); ok {
